@@ -6,8 +6,9 @@ From PlzV Require Import Base.Harness Gen.C11RuntimeHash Model.C11 Proof.C11 Pro
 (* For every cache setting, every history h of invocations `plz test [-c config] L [-- args]` on successive
    tree states (with or without deleting plz-out before an invocation) and every position n of it, where x is
    the n-th step and `reports` lists what the successive invocations report for the target:
-   1. a cached result is reported only if an earlier invocation of the history actually RAN the test, that
-      run PASSED, it was given NO test arguments, and it had the current runtime inputs: the same EFFECTIVE test
+   1. a cached result is reported only by an invocation WITHOUT test arguments, and only if an earlier
+      invocation of the history actually RAN the test, that run PASSED, it was given NO test arguments, and it
+      had the current runtime inputs: the same EFFECTIVE test
       command (the one of the build config active in that invocation) and the same test directory (test
       binary, data files, runtime files - destinations, kinds and contents);
    2. the reported pass/fail outcome equals the outcome of running the test on the current tree with the
@@ -17,33 +18,33 @@ Definition C11_statement : Prop :=
     nth_error h n = Some x ->
     (nth_error (reports cache_on h) n = Some CachedPass ->
        exists i y, i < n /\ nth_error h i = Some y /\ nth_error (reports cache_on h) i = Some RanPass
-                   /\ same_inputs (s_def y) (s_def x) /\ s_args y = [])
+                   /\ same_inputs (s_def y) (s_def x) /\ s_args y = [] /\ s_args x = [])
     /\ (exists r, nth_error (reports cache_on h) n = Some r /\ passed r = step_outcome x).
 
 (* The code violates it: RuntimeHash digests the CONTENT of every runtime file but writes neither its name
    nor its destination (Gen.C11RuntimeHash.loop_writes = [WPathHash], read off the source), so renaming the
-   output of a data dependency leaves the key unchanged.  Witness: Proof.C11.w_rename.  (A second, independent
-   witness: needToRun ignores the test arguments - Proof.C11.w_args, C11_witness_args below.) *)
+   output of a data dependency leaves the key unchanged.  Witness: Proof.C11.w_rename.  (The former second
+   witness - needToRun ignored the test arguments - was repaired in /repo by bdc0c8a; see C11_args_regression.) *)
 Theorem C11_refuted : ~ C11_statement.
 Proof. exact refuted_by_rename. Qed.
 Print Assumptions C11_refuted.
 
 (* The strongest statement the code allows: the full property on every history in which the executable
-   classifier finds no pair of steps with equal runtime key and different runtime inputs, and no step whose
-   test arguments change its outcome while an argument-less step has the same key. *)
+   classifier finds no pair of steps with equal runtime key and different runtime inputs. *)
 Theorem C11_partial :
   forall (cache_on : bool) (h : list step), defect_class h = None ->
   forall (n : nat) (x : step),
     nth_error h n = Some x ->
     (nth_error (reports cache_on h) n = Some CachedPass ->
        exists i y, i < n /\ nth_error h i = Some y /\ nth_error (reports cache_on h) i = Some RanPass
-                   /\ same_inputs (s_def y) (s_def x) /\ s_args y = [])
+                   /\ same_inputs (s_def y) (s_def x) /\ s_args y = [] /\ s_args x = [])
     /\ (exists r, nth_error (reports cache_on h) n = Some r /\ passed r = step_outcome x).
 Proof. exact partial_by_position. Qed.
 Print Assumptions C11_partial.
 
 (* Unconditionally, for ALL histories: results of failing runs and of runs with test arguments are never
-   stored or reused.  A cached result always comes from an earlier invocation that ran the test, passed, was
+   stored or reused, and an invocation with test arguments never reuses.  A cached result is only reported by
+   an argument-less invocation and always comes from an earlier invocation that ran the test, passed, was
    given no test arguments and had an equal runtime KEY; a reported failure (pass) is the failure (pass) of
    a run of this invocation on the current tree; and whatever the results file or the cache hold after any
    history was put there by an argument-less run that passed. *)
@@ -52,7 +53,8 @@ Theorem C11_no_failure_cached :
      nth_error h n = Some x ->
      (nth_error (reports cache_on h) n = Some CachedPass ->
         exists i y, i < n /\ nth_error h i = Some y /\ nth_error (reports cache_on h) i = Some RanPass
-                    /\ outcome (s_def y) = true /\ runtime_key (s_def y) = runtime_key (s_def x) /\ s_args y = [])
+                    /\ outcome (s_def y) = true /\ runtime_key (s_def y) = runtime_key (s_def x) /\ s_args y = []
+                    /\ s_args x = [])
      /\ (nth_error (reports cache_on h) n = Some RanFail -> step_outcome x = false)
      /\ (nth_error (reports cache_on h) n = Some RanPass -> step_outcome x = true))
   /\ (forall (cache_on : bool) (h : list step) (k : key),
@@ -62,17 +64,16 @@ Theorem C11_no_failure_cached :
 Proof. exact (conj no_failure_cached_by_position stored_only_passes). Qed.
 Print Assumptions C11_no_failure_cached.
 
-(* For ALL histories h and every further step x that is given test arguments: that step stores nothing - the
-   cache holds no key after it that it did not hold before, and a results file exists after it only if the
-   step itself reused it.  (With C11_no_failure_cached: a cached pass is only ever reused from an
-   argument-less passing run.)  Depends on the order of the guards of cacheOutputFiles as read off the source
-   (Gen.store_steps). *)
+(* For ALL histories h and every further step x that is given test arguments: that step is never reported as
+   cached (it always runs), the cache holds no key after it that it did not hold before, and no results file
+   is left behind.  Depends on the leading guards of needToRun and on the order of the guards of
+   cacheOutputFiles as read off the source (Gen.need_to_run_guards, Gen.store_steps). *)
 Theorem C11_args_never_stored :
   forall (cache_on : bool) (h : list step) (x : step),
     s_args x <> [] ->
-    (forall k, In k (st_cache (state_after cache_on (h ++ [x]))) -> In k (st_cache (state_after cache_on h)))
-    /\ (forall k, st_local (state_after cache_on (h ++ [x])) = Some k ->
-          nth_error (reports cache_on (h ++ [x])) (length h) = Some CachedPass).
+    nth_error (reports cache_on (h ++ [x])) (length h) <> Some CachedPass
+    /\ (forall k, In k (st_cache (state_after cache_on (h ++ [x]))) -> In k (st_cache (state_after cache_on h)))
+    /\ st_local (state_after cache_on (h ++ [x])) = None.
 Proof. exact args_run_never_stored. Qed.
 Print Assumptions C11_args_never_stored.
 
@@ -109,12 +110,13 @@ Theorem C11_build_cache :
 Proof. exact (conj fetched_only_what_was_built built_once_with_cache). Qed.
 Print Assumptions C11_build_cache.
 
-(* The three known defect classes, as the classifier names them, each with a stale cached pass. *)
-Example C11_witness_args :
-  forall c, exists pre x, w_args = pre ++ [x] /\ report_at c pre x = CachedPass /\ step_outcome x = false
-                          /\ defect_class w_args = Some ArgsNotInKey.
-Proof. exact w_args_stale. Qed.
+(* Regression example for the repaired defect run-with-arguments-reuses-argumentless-result: `plz test L`
+   then `plz test L -- bad` - the second invocation runs and fails, and the classifier finds nothing. *)
+Example C11_args_regression :
+  forall c, reports c w_args = [RanPass; RanFail] /\ defect_class w_args = None.
+Proof. exact w_args_not_reused. Qed.
 
+(* The two known defect classes, as the classifier names them, each with a stale cached pass. *)
 Example C11_witness_rename :
   forall c, exists pre x, w_rename = pre ++ [x] /\ report_at c pre x = CachedPass /\ step_outcome x = false
                           /\ defect_class w_rename = Some RuntimeFileNamesNotHashed.
@@ -148,7 +150,7 @@ Proof. vm_compute. repeat split. Qed.
 
 (* Non-vacuity with test arguments and a per-config test command.  The test passes iff its first argument is
    "good": `-- good` runs and passes but stores nothing (the next identical invocation runs again), the plain
-   invocation runs and fails; no defect is classified (nothing is reused).  Then a dict: the dbg command is
+   invocation runs and fails; no defect is classified.  Then a dict: the dbg command is
    edited while opt is active (still cached), the opt command is edited (runs again, fails), `-c dbg` picks
    the dbg command. *)
 Definition nv_arg (a : list str) : step :=
